@@ -796,23 +796,27 @@ func permClass(m uint32) string {
 // longPaddedMode recognises a tree whose only obstacle is a mode string longer than 7 digits.
 func longPaddedMode(body []byte, idLen int) string {
 	b := body
+	padded := false
 	for len(b) > 0 {
 		sp := bytes.IndexByte(b, ' ')
 		if sp < 0 {
-			return ""
+			break
 		}
 		if sp > 7 {
 			v, err := strconv.ParseUint(string(b[:sp]), 8, 64)
-			if err == nil && v <= 0o7777777 {
-				return "decode-error:mode-zero-padded-beyond-7-digits"
+			if err != nil || v > 0o7777777 {
+				return "decode-error:mode-wider-than-7-octal-digits" // a wide value anywhere in the tree wins
 			}
-			return "decode-error:mode-wider-than-7-octal-digits"
+			padded = true
 		}
 		nul := bytes.IndexByte(b, 0)
 		if nul < 0 || len(b) < nul+1+idLen {
-			return ""
+			break
 		}
 		b = b[nul+1+idLen:]
+	}
+	if padded {
+		return "decode-error:mode-zero-padded-beyond-7-digits"
 	}
 	return ""
 }
